@@ -3,6 +3,7 @@ same program with gcc + sanitizers.  No decisions here."""
 import os
 import re
 import subprocess
+import time
 import sys
 import xml.etree.ElementTree as ET
 
@@ -35,9 +36,19 @@ def cppcheck_findings(path, platform="unix64", enable="style,warning", inconclus
     if inconclusive:
         cmd.append("--inconclusive")
     cmd += list(extra) + [path]
-    p = subprocess.run(cmd, stdout=subprocess.PIPE, stderr=subprocess.PIPE, timeout=timeout)
-    txt = p.stderr.decode("utf-8", "replace")
-    i = txt.find("<?xml")
+    txt, i, p = "", -1, None
+    for attempt in range(40):
+        # the shared binary may be relinked by a concurrent check: retry while it is missing / busy / half written
+        try:
+            p = subprocess.run(cmd, stdout=subprocess.PIPE, stderr=subprocess.PIPE, timeout=timeout)
+        except (PermissionError, FileNotFoundError, OSError):
+            time.sleep(3)
+            continue
+        txt = p.stderr.decode("utf-8", "replace")
+        i = txt.find("<?xml")
+        if i >= 0 and p.returncode in (0, 1):
+            break
+        time.sleep(3)
     if i < 0:
         raise vlib.BuildError("cppcheck produced no XML (rc=%s): %s" % (p.returncode, txt[-600:]))
     try:
